@@ -483,6 +483,11 @@ func genConc(t *Tracer, m *Meta, tier string, seed int64, schedFile string, stre
 		for i := 0; i < n; i++ {
 			fam := familyNames[r.Intn(len(familyNames))]
 			keys := genKeys(r, fam, 5+r.Intn(120), 1+r.Intn(8))
+			if i == 0 || i%4 == 1 {
+				// long shared prefixes and long distinct tails (stored prefixes and leaf tails of
+				// 36..120 bytes): anything the read path sizes by "short" inputs
+				keys = longify(r, keys)
+			}
 			enc := []string{"i32", "s16", "none", "i64"}[r.Intn(4)]
 			o4 := all16[r.Intn(16)]
 			if i%2 == 0 {
@@ -598,6 +603,23 @@ func genConc(t *Tracer, m *Meta, tier string, seed int64, schedFile string, stre
 			}
 		}
 	}
+}
+
+// longify wraps every key in one of two long shared prefixes and gives it a long tail of
+// its own; the result is sorted and free of duplicates.
+func longify(r *rand.Rand, keys []string) []string {
+	pre := []string{randBytes(r, 40+r.Intn(30), nil), randBytes(r, 36+r.Intn(40), []byte("ab"))}
+	seen := map[string]bool{}
+	out := []string{}
+	for _, k := range keys {
+		nk := pre[len(k)%2] + k + randBytes(r, 36+r.Intn(50), nil)
+		if !seen[nk] {
+			seen[nk] = true
+			out = append(out, nk)
+		}
+	}
+	sort.Strings(out)
+	return out
 }
 
 // ---- replay ----------------------------------------------------------------------------
